@@ -92,7 +92,9 @@ class Recorder:
             if h not in self.nontrivial:
                 self.nontrivial.add(h)
                 if len(self.samples) < self.MAX_SAMPLES:
-                    self.samples.append(json.loads(canon(self._cur_case)))
+                    c = canon(self._cur_case)
+                    if len(c) < 20000:      # keep the evidence file small
+                        self.samples.append(json.loads(c))
         self._cur_case = None
 
     # --- called by checks
